@@ -16,14 +16,19 @@ EXTENDS Naturals, Sequences, FiniteSets, TLC
 VARIABLE c
 cvars == <<c>>
 
-CInit == c = [ ptr |-> 0,            \* index of the connection APIClient._connection points to, 0 = None
+\* h: what the application's stop callback does in its first step, i.e. (tasks start eagerly) inside the very
+\* callback in which the session ends:  "none" | "start" (reconnect at once) | "api" (issue a command)
+CInitH(h) ==
+          c = [ hook |-> h,
+               ptr |-> 0,            \* index of the connection APIClient._connection points to, 0 = None
                st |-> <<>>,          \* visible state of every connection object created so far
                ever |-> <<>>,        \* did it reach "connected"
                phs |-> <<>>,         \* connect phases in progress [k: start | finish, on: connection, op: user call start |
                                      \* finish | connect]; more than one only while an abandoned attempt is still unwinding
                dc |-> <<>>,          \* connections a disconnect() call is still running on (one entry per call)
                dn |-> <<>>,          \* operations that ended in this callback: <<op, class>>
-               gate |-> "none" ]     \* verdict of the API gate in this callback: none | open | shut
+               gate |-> "none" ]     \* verdict of the API gate in this callback: none | open | shut | shut_in_stop
+CInit == CInitH("none")
 
 Live == {"opened", "hsdone", "connected"}
 PhaseOn(x, i) == \E j \in 1..Len(x.phs) : x.phs[j].on = i
@@ -35,10 +40,18 @@ Rank(v) == CASE v = "init" -> 0 [] v = "opened" -> 1 [] v = "hsdone" -> 2 [] v =
 
 \* a connection closes (any cause).  If it had been connected its stop callback runs inside the
 \* same callback and the client forgets it.
+\* The application's stop callback starts running in the same callback, AFTER the client has forgotten
+\* the connection: a reconnect issued from it is accepted (no attempt in progress, no session alive), a
+\* command issued from it is refused with a connection error (C19).
 Close(x, i) ==
   IF x.st[i] = "closed" THEN x
-  ELSE [x EXCEPT !.st[i] = "closed",
-                 !.ptr = IF x.ever[i] /\ x.st[i] = "connected" THEN 0 ELSE @]
+  ELSE LET stop == x.ever[i] /\ x.st[i] = "connected"
+           y == [x EXCEPT !.st[i] = "closed", !.ptr = IF stop THEN 0 ELSE @]
+       IN IF ~stop \/ x.hook = "none" THEN y
+          ELSE IF x.hook = "start"
+               THEN [y EXCEPT !.st = Append(@, "init"), !.ever = Append(@, FALSE), !.ptr = Len(y.st) + 1,
+                              !.phs = Append(@, [k |-> "start", on |-> Len(y.st) + 1, op |-> "start"])]
+               ELSE Done([y EXCEPT !.gate = "shut_in_stop"], "api", "ANY")
 
 \* ------------------------------------------------------------ user calls
 \* start_connection: accepted iff the client holds no connection
